@@ -2,6 +2,8 @@
 C03 — write transactions are serial (lock discipline part).
 -/
 import Bolt.Model.Locks
+import Bolt.Lemmas.Locks
+set_option linter.unusedVariables false
 namespace Bolt.C03
 open Bolt.Locks
 
@@ -13,12 +15,15 @@ def InWriter (s : St) (i : Nat) : Prop := s.rwtx = some i
     schedule. -/
 theorem one_writer (ps : List (List Act)) (hps : ∀ p ∈ ps, p ∈ programs)
     (s : St) (h : Reach (start ps) s) (i : Nat) (hw : InWriter s i) : s.rw = some i := by
-  sorry
+  have I := inv_reach ps hps s h
+  have htx := I.rwtx i hw
+  exact (I.rw i).2 (good_of_check _ tbl_tx_rw _ (good_P I i) htx)
 
 /-- `rwlock` has at most one holder and only the holder is between `beginRWTx` and `tx.close`. -/
 theorem rwtx_unique (ps : List (List Act)) (hps : ∀ p ∈ ps, p ∈ programs)
     (s : St) (h : Reach (start ps) s) (i j : Nat) (hi : InWriter s i) (hj : InWriter s j) : i = j := by
-  sorry
+  unfold InWriter at hi hj
+  exact Option.some.inj (hi.symm.trans hj)
 
 /-- **No lock is leaked**: when every goroutine has finished its program — by commit,
     rollback, failed commit, early error or close — every lock is free and `db.rwtx` is nil,
@@ -26,7 +31,34 @@ theorem rwtx_unique (ps : List (List Act)) (hps : ∀ p ∈ ps, p ∈ programs)
 theorem all_released (ps : List (List Act)) (hps : ∀ p ∈ ps, p ∈ programs)
     (s : St) (h : Reach (start ps) s) (hdone : ∀ p ∈ s.progs, p = []) :
     s.rw = none ∧ s.mt = none ∧ s.stat = none ∧ s.mmapW = none ∧ s.mmapR = [] ∧ s.rwtx = none := by
-  sorry
+  have I := inv_reach ps hps s h
+  have hP : ∀ j, P s j = [] := by
+    intro j
+    unfold P
+    cases hj : s.progs[j]? with
+    | none => rfl
+    | some r => exact hdone r (List.mem_of_getElem? hj)
+  have hf : ∀ lk ul j, ¬ firstIs lk ul (P s j) = true := by
+    intro lk ul j; rw [hP j]; simp [firstIs]
+  refine ⟨?_, ?_, ?_, ?_, ?_, ?_⟩
+  · cases hv : s.rw with
+    | none => rfl
+    | some k => exact absurd ((I.rw k).1 hv) (hf _ _ k)
+  · cases hv : s.mt with
+    | none => rfl
+    | some k => exact absurd ((I.mt k).1 hv) (hf _ _ k)
+  · cases hv : s.stat with
+    | none => rfl
+    | some k => exact absurd ((I.stat k).1 hv) (hf _ _ k)
+  · cases hv : s.mmapW with
+    | none => rfl
+    | some k => exact absurd ((I.mmapW k).1 hv) (hf _ _ k)
+  · cases hv : s.mmapR with
+    | nil => rfl
+    | cons k tl => exact absurd ((I.rmem k).1 (by rw [hv]; exact List.mem_cons_self)) (hf _ _ k)
+  · cases hv : s.rwtx with
+    | none => rfl
+    | some k => exact absurd (I.rwtx k hv) (hf _ _ k)
 
 /-- **No lost wake-up / no deadlock** (goroutines running one transaction at a time): in
     every reachable state in which some goroutine has not finished, some goroutine can take
@@ -34,20 +66,26 @@ theorem all_released (ps : List (List Act)) (hps : ∀ p ∈ ps, p ∈ programs)
 theorem deadlock_free (ps : List (List Act)) (hps : ∀ p ∈ ps, p ∈ programs)
     (s : St) (h : Reach (start ps) s) (hlive : ∃ p ∈ s.progs, p ≠ []) :
     ∃ i s', step s i = some s' := by
-  sorry
+  exact progress (inv_reach ps hps s h) hlive
 
 /-- a blocked `beginRWTx` is enabled whenever no writer holds `rwlock` -/
 theorem writer_admitted_when_free (s : St) (i : Nat) (rest : List Act)
     (hp : s.progs[i]? = some (.lockRw :: rest)) (hfree : s.rw = none) : (step s i).isSome := by
-  sorry
+  unfold step
+  rw [hp]
+  simp [enabled, hfree]
 
 /-- readers never wait for the writer lock: no program of a read transaction contains it -/
 theorem readers_do_not_take_rwlock : Act.lockRw ∉ reader ∧ Act.lockRw ∉ readerFail ∧ Act.lockRw ∉ stats := by
-  sorry
+  decide
 
 /-- non-vacuity: a concrete schedule of a reader, two writers (one remapping) and a close
     runs to completion -/
 example : ∃ s, Reach (start [reader, writerCommit, writerCommitRemap, closeDb]) s ∧ ∀ p ∈ s.progs, p = [] := by
-  sorry
+  refine ⟨{ progs := [[], [], [], []], rw := none, mt := none, stat := none, mmapW := none, mmapR := [], rwtx := none },
+    reach_run _ -- an interleaved (round-robin over the enabled goroutines) schedule
+      [0, 1, 0, 0, 1, 0, 1, 0, 1, 0, 1, 1, 0, 1, 0, 1, 2, 0, 2, 0, 1, 2, 1, 2, 2, 2, 2, 2, 2, 2, 3, 2, 3, 2, 3, 3, 3, 3] _ _ .refl ?_, ?_⟩
+  · decide
+  · decide
 
 end Bolt.C03
